@@ -354,6 +354,8 @@ func (im *Impl) Exec(line string) (out string) {
 		return im.rbEnd()
 	case "cmp":
 		return im.rbCompare()
+	case "csnap":
+		return im.rbSnapshot(w[1])
 	case "clone":
 		return im.clone(w[1], len(w) > 2 && w[2] == "late")
 	case "maxchain":
